@@ -92,6 +92,13 @@ func cmdCheck(args []string) int {
 		eng.rangeKeyBase = loadRangeKeys(*verif)
 		eng.loopsBase = loadLoops(*verif)
 	}
+	for _, u := range eng.unbound {
+		// a contract that matches no function of the current tree: only the properties it carries
+		// are undecided
+		if u.spec != nil && hasProp(u.spec, *prop) {
+			return toolFailure(u.msg)
+		}
+	}
 	kfs := loadKnownFindings(filepath.Join(*verif, "known_findings.json"))
 
 	// select targets
